@@ -166,6 +166,9 @@ def writer_rows(tier: str, seed: int) -> list[dict]:
             bs = text.encode()
             for fn in ("write_compact_string", "write_nullable_compact_string", "write_legacy_string",
                        "write_nullable_legacy_string"):
+                if "compact" in fn and len(bs) > 32767:
+                    continue      # Kafka caps strings at 32767 bytes in both forms; the compact writers are
+                                  # neither required to accept nor to reject longer ones
                 add(fn, ablob(bs), lambda s, fn=fn, text=text: getattr(w, fn)(s, text))
         raw = bytes([0xFF]) + bytes([n % 251]) * (n - 1) if n else b""
         for fn in ("write_compact_string", "write_nullable_compact_string", "write_legacy_bytes",
@@ -409,7 +412,8 @@ def type_rows(seed: int) -> list[dict]:
         rows.append({"k": "t", "t": tname, "c": cand_abs(v), "isinst": isinst, "ctor": ctor, "rt": rt,
                      "repr": repr(v)[:80]})
 
-    impostors = [True, False, 1.0, 0.0, "1", b"1", None, (1,), 1.5, float("nan")]
+    # bool is an int in Python; whether the integer types admit it is left open (not judged)
+    impostors = [1.0, 0.0, "1", b"1", None, (1,), 1.5, float("nan")]
     for tname, (T, wfn, rfn) in int_types.items():
         lo, hi = T.__low__, T.__high__    # only used to aim candidates around the limits
         cands = set()
